@@ -1500,6 +1500,10 @@ class Interp:
         return SymSmallSet(out)
 
     def ev_DictComp(self, e, env, module):
+        if len(e.generators) == 1:
+            it = self.eval(e.generators[0].iter, env, module)
+            if hasattr(it, 'dict_comprehension'):
+                return it.dict_comprehension(self, e, env, module)
         out = {}
         def emit(en):
             out[self.hashable(self.eval(e.key, en, module))] = self.eval(e.value, en, module)
@@ -1836,6 +1840,8 @@ class Interp:
         return list(reversed(self.iterate(args[0], node)))
 
     def bi_zip(self, args, kwargs, node):
+        if args and hasattr(args[0], 'zip_with'):
+            return args[0].zip_with(self, list(args[1:]), node)
         return list(zip(*[self.iterate(a, node) for a in args]))
 
     def bi_enumerate(self, args, kwargs, node):
